@@ -33,7 +33,7 @@ static void lookups(S& s, const std::vector<double>& x, const std::string& gridc
 
 int main(int argc, char** argv) {
   Args ar = parse(argc, argv); quiet_gsl();
-  const double AB[][2] = {{0, 1}, {-3, 5}, {1, 1e4}, {1e-3, 7.5}, {2, 2 + 1e-9}, {1000, std::nextafter(1000.0, 2000.0)}, {2.5e-3, std::nextafter(std::nextafter(2.5e-3, 1.0), 1.0)}, {6e9, 6e9 + 3e-6}, {-7.5, std::nextafter(-7.5, 0.0)}};   // incl. a and b one or two ulp apart
+  const double AB[][2] = {{0, 1}, {-3, 5}, {1, 1e4}, {1e-3, 7.5}, {2, 2 + 1e-9}, {1000, std::nextafter(1000.0, 2000.0)}, {2.5e-3, std::nextafter(std::nextafter(2.5e-3, 1.0), 1.0)}, {6e9, 6e9 + 3e-6}, {-7.5, std::nextafter(-7.5, 0.0)}, {1e-5, 1e305}, {1e-10, 1e300}, {0.25, 1.5e308}, {3e-9, 7e-9}};   // incl. a and b one or two ulp apart
   unsigned nxmax = ar.reduced ? 12 : 65;
   for (unsigned nx = 2; nx <= nxmax; nx++) {
     for (auto& ab : AB) for (int lg = 0; lg < 2; lg++) {
@@ -58,7 +58,7 @@ int main(int argc, char** argv) {
       // equal spacing in x (log x)
       double worst = 0;
       for (unsigned i = 0; i < nx; i++) {
-        double want = lg ? std::exp(std::log(a) + (std::log(b) - std::log(a)) * (double)i / (nx - 1)) : a + (b - a) * (double)i / (nx - 1);
+        double want = lg ? std::exp(std::log(a) + (std::log(b) - std::log(a)) * (double)i / (nx - 1)) : a + (b - a) * ((double)i / (nx - 1));
         double tol = lg ? 16 * ref::EPS * std::fabs(want) * (1 + std::fabs(std::log(want))) : 8 * ref::EPS * (std::fabs(b - a) + std::fabs(a));
         worst = std::max(worst, std::fabs(x[i] - want) / tol);
       }
